@@ -150,7 +150,12 @@ def proj_c02(c, c_a=None):
             c.disc('quantity[%s][%s]' % (pid, a), float(row['quantity']), b2f(mf[a]['net']))
             c.cont('market_value[%s][%s]' % (pid, a), row['market_value'], mf[a]['mv'], mr[a]['mv'])
         c.cont('total_market_value[%s]' % pid, pi['tmv'], pf['tmv'], pr['tmv'])
-        c.cont('total_equity[%s]' % pid, pi['equity'], pf['equity'], pr['equity'])
+        # equity = cash + market value, relative to the cash the implementation actually holds (the ledger is C01's)
+        if f2b(pi['cash']) == pf['cash']:
+            c.cont('total_equity[%s]' % pid, pi['equity'], pf['equity'], pr['equity'])
+        elif not isinstance(pi['equity'], dict) and not isinstance(pi['tmv'], dict):
+            c.cont('total_equity[%s] - cash' % pid, pi['equity'] - pi['cash'], pf['tmv'], pr['tmv'],
+                   scale=c.scale * 1e4)
     if c_a is not None and c.step['op'][0] == 'update' and c.step['out'] == 'ok' and c_a.mf.get('out') == 'ok':
         # the marking loop of broker.update: every held asset is marked to the mid price at the update time
         marks_i = [(m['pid'], m['asset'], m['time']) for m in c.step['marks'] if m['held']]
